@@ -4,6 +4,8 @@ mod extract;
 mod gen;
 mod imp;
 mod props;
+mod props2;
+mod props3;
 mod util;
 
 use std::env;
